@@ -192,6 +192,9 @@ var fixedGroupSources = []string{
 
 var fixedPlainSources = []string{
 	"find all 'a'",
+	"find all in 'a', 'b', 'c', 'd', 'ab', 'ba', 'ca', 'cb', 'x', 'y', 'z', '1'",
+	"find all ('ab' or 'a' or 'b' or 'c' or 'ca') 'c'",
+	"find all not in 'a', 'b', 'c' (digit or upper or lower)",
 	"find all at least 1 digit",
 	"find all between 1 and 3 'a' 'b'",
 	"find all at least 1 (in 'a' to 'c') = x maybe x",
@@ -317,6 +320,7 @@ type Report struct {
 	Procs          []int          `json:"gomaxprocs"`
 	BatchesPer     int            `json:"batches_per_setting"`
 	Batches        int            `json:"batches"`
+	FreshBatches   int            `json:"batches_sharing_a_never_run_program"`
 	Goroutines     int            `json:"goroutines"`
 	Iters          int            `json:"iterations_per_goroutine"`
 	Mode           string         `json:"mode"`
@@ -483,12 +487,28 @@ func main() {
 			tasks := make([]task, *gor)
 			sharedProg := runnable[r.Intn(len(runnable))]
 			sharedText := r.Intn(len(texts))
+			// every second batch shares a FRESHLY compiled program that has never been run: whatever a first Run
+			// does to the program (lazy initialisation, in-place normalisation of the bytecode) then happens in
+			// several goroutines at once.  The sequential reference programs have all been run before.
+			sharedV := sharedProg.Shared
+			fresh := b%2 == 1
+			if fresh {
+				if v, d := compileDump(sharedProg.Src); v != nil && d == sharedProg.Compile {
+					sharedV = v
+					rep.FreshBatches++
+				} else {
+					fresh = false
+				}
+			}
 			mix := []string{}
 			for g := range tasks {
 				k := r.Intn(nKinds)
 				if *mode == "compile-groups" || (b%4 == 3 && g < 2) {
 					// every fourth batch has at least two concurrent compiles with groups
 					k = kCompileGroups
+				} else if fresh && g >= 2 && g < 5 {
+					// at least three goroutines make the first runs of the fresh program together
+					k = kRunShared
 				}
 				t := task{kind: k}
 				switch k {
@@ -497,8 +517,8 @@ func main() {
 				case kCompilePlain:
 					t.prog = plainProgs[r.Intn(len(plainProgs))]
 				case kRunShared:
-					t.prog, t.text = sharedProg, sharedText
-					if r.Intn(2) == 0 {
+					t.prog, t.text, t.priv = sharedProg, sharedText, sharedV
+					if r.Intn(2) == 0 && !(fresh && g < 5) {
 						t.text = r.Intn(len(texts))
 					}
 				case kRunPrivate:
@@ -533,7 +553,7 @@ func main() {
 						case kParseGroups:
 							got, want = parseDump(t.prog.Src), t.prog.Parse
 						case kRunShared:
-							got, want, text = runDump(t.prog.Shared, texts[t.text]), t.prog.Runs[t.text], texts[t.text]
+							got, want, text = runDump(t.priv, texts[t.text]), t.prog.Runs[t.text], texts[t.text]
 						case kRunPrivate:
 							got, want, text = runDump(t.priv, texts[t.text]), t.prog.Runs[t.text], texts[t.text]
 						}
